@@ -350,6 +350,39 @@ def correspondence(ctx):
         outs = [z2._comps.index(z2._find_comp(w.replace(tzinfo=z2, fold=f))) for w, f in seq]
         reqs.append("ical.cached %s %s" % (cw, ";".join("%d:%d" % (secs(w), f) for w, f in seq)))
         exp.append("ok " + ilist(outs))
+    # branches of _find_comp that the two-component zones above never reach: single component, three components,
+    # tied onsets (first listed wins), all-DAYLIGHT (first component before any onset), negative saving, and wall
+    # times before the first onset
+    def comp_txt(kind, dtstart, rrule_, ofrom, oto, name):
+        ls = ["BEGIN:%s" % kind, "DTSTART:%s" % dtstart]
+        if rrule_:
+            ls.append("RRULE:" + rrule_)
+        return ls + ["TZOFFSETFROM:" + off4(ofrom), "TZOFFSETTO:" + off4(oto), "TZNAME:" + name, "END:%s" % kind]
+    def zone_txt(comps):
+        return "\r\n".join(["BEGIN:VTIMEZONE", "TZID:S"] + [l for c in comps for l in c] + ["END:VTIMEZONE"]) + "\r\n"
+    S1 = comp_txt("STANDARD", "19701101T020000", "FREQ=YEARLY;BYMONTH=11;BYDAY=1SU", -14400, -18000, "EST")
+    D1 = comp_txt("DAYLIGHT", "19700308T020000", "FREQ=YEARLY;BYMONTH=3;BYDAY=2SU", -18000, -14400, "EDT")
+    S2 = comp_txt("STANDARD", "20000101T000000", "", -18000, -21600, "CST")                     # a later base-offset change
+    Dn = comp_txt("DAYLIGHT", "19701025T020000", "FREQ=YEARLY;BYMONTH=10;BYDAY=-1SU", 3600, 0, "GMT")    # negative saving (winter is 'DST')
+    Sn = comp_txt("STANDARD", "19700329T010000", "FREQ=YEARLY;BYMONTH=3;BYDAY=-1SU", 0, 3600, "IST")
+    specials = {"single": [S1], "single_dst": [D1], "three": [S1, D1, S2], "three_rev": [S2, D1, S1], "tie_sd": [S1, [l.replace("STANDARD", "DAYLIGHT").replace("EST", "XXX") for l in S1]],
+                "tie_ds": [[l.replace("STANDARD", "DAYLIGHT").replace("EST", "XXX") for l in S1], S1], "all_daylight": [D1, [l.replace("20", "21", 1) if l.startswith("DTSTART") else l for l in D1]],
+                "neg_saving": [Sn, Dn], "neg_saving_rev": [Dn, Sn]}
+    lo2, hi2 = datetime.datetime(1940, 1, 1), datetime.datetime(2030, 1, 1)
+    for label, comps in specials.items():
+        z = load(zone_txt(comps)).get()
+        cw = comps_wire(z, lo2, hi2)
+        walls = [datetime.datetime(1950, 6, 1, 12), datetime.datetime(1969, 12, 31, 23, 59, 59), datetime.datetime(1970, 3, 8, 1, 59, 59),
+                 datetime.datetime(1970, 3, 8, 2), datetime.datetime(1970, 3, 8, 2, 30), datetime.datetime(1970, 11, 1, 1, 30), datetime.datetime(1970, 11, 1, 2),
+                 datetime.datetime(1999, 12, 31, 23), datetime.datetime(2000, 1, 1, 0), datetime.datetime(2000, 1, 1, 0, 30), datetime.datetime(2010, 3, 14, 2, 30),
+                 datetime.datetime(2010, 3, 28, 1, 30), datetime.datetime(2010, 10, 31, 1, 30), datetime.datetime(2010, 11, 7, 1, 30), datetime.datetime(2020, 7, 1)]
+        for w in walls:
+            for fold in (0, 1):
+                ww = w.replace(tzinfo=z, fold=fold)
+                idx = z._comps.index(z._find_comp(ww))
+                reqs.append("ical.query %s %d %d" % (cw, secs(w), fold))
+                exp.append("ok %d %d %d" % (idx, int(ww.utcoffset().total_seconds()), int(ww.dst().total_seconds())))
+        ctx.count("special_component_layouts")
     got = ctx.driver(reqs)
     for q, e, g in zip(reqs, exp, got):
         if e != g:
@@ -395,9 +428,16 @@ def oracle(ctx):
         if k < 3:
             ctx.sample({"tzstr": s, "vtimezone": text})
         ok = True
+        if mode == 2:
+            years = (2014,) + years          # the DTSTART itself is the first onset of an RDATE-list component
         for y in years:
             grid = [datetime.datetime(y, 1, 20) + datetime.timedelta(days=d, hours=(d * 5) % 24, minutes=30 * (d % 2)) for d in range(0, 330, 23)] if k % 4 == 0 else []
             us = [(tu + datetime.timedelta(seconds=d), True) for tu in transitions_utc(spec, y) for d in DELTAS] + [(g, False) for g in grid]
+            if mode == 2 and y == 2014:
+                # the property speaks "from its first onset on": keep instants from two hours before the earliest
+                # listed onset of either component (before it the first STANDARD component applies — checked below)
+                first = min(transitions_utc(spec, 2014)) - datetime.timedelta(hours=2)   # wall probes reach 2 h back
+                us = [(u, near) for (u, near) in us if u >= first + datetime.timedelta(hours=4)]
             for u, near in us:
                 if not ok:
                     break
